@@ -4,6 +4,9 @@ package main
 
 import (
 	"fmt"
+	"go/ast"
+	"go/parser"
+	"go/token"
 	"math"
 	"sort"
 	"strings"
@@ -25,6 +28,28 @@ func init() { register("diffreport", suiteDiffReport) }
 type plannedFn struct {
 	oldName, newName string // "" = absent on that side
 	kind             string // kept edited renamed added removed renamed-sameshape
+}
+
+// countFuncBodies: FuncDecls with a body + function literals, by go/parser
+func countFuncBodies(src string) int {
+	fset := token.NewFileSet()
+	f, err := parser.ParseFile(fset, "a.go", src, 0)
+	if err != nil {
+		return 0
+	}
+	n := 0
+	ast.Inspect(f, func(x ast.Node) bool {
+		switch d := x.(type) {
+		case *ast.FuncDecl:
+			if d.Body != nil {
+				n++
+			}
+		case *ast.FuncLit:
+			n++
+		}
+		return true
+	})
+	return n
 }
 
 func topoOfShort(res []diff.FingerprintResult, short string) *topology.FunctionTopology {
@@ -120,6 +145,12 @@ func suiteDiffReport(c *Ctx) error {
 			newSrc += shapeFn(fmt.Sprintf("Form%c", 'X'+k), k)
 			plan = append(plan, plannedFn{fmt.Sprintf("Shape%c", 'A'+k), fmt.Sprintf("Form%c", 'X'+k), "renamed-sameshape"})
 		}
+		// function literals in package-level variable initialisers (closures of the synthetic init)
+		{
+			k := 3 + rr.Intn(5)
+			oldSrc += fmt.Sprintf("var pkgHook = func(x int) int { return x + %d }\n\nvar pkgTable = map[string]func(int) int{\n\t\"inc\": func(v int) int { return v + 1 },\n}\n\n", k)
+			newSrc += fmt.Sprintf("var pkgHook = func(x int) int { return x + %d }\n\nvar pkgTable = map[string]func(int) int{\n\t\"inc\": func(v int) int { return v + 1 },\n\t\"dec\": func(v int) int { return v - %d },\n}\n\n", k, k)
+		}
 		// methods (pointer and value receivers): kept, edited, renamed, added
 		{
 			k := 2 + rr.Intn(7)
@@ -196,6 +227,32 @@ func suiteDiffReport(c *Ctx) error {
 				}) {
 					c.Count("zipper_pairs_checked")
 				}
+			}
+		}
+		// ---- ground truth from the SOURCE (go/parser), not from the fingerprinter: every function, method
+		// and function literal with a body - closures in package-level variable initialisers included -
+		// must be accounted for, so the number of entries on each side cannot be smaller than that ----
+		{
+			nOldAst, nNewAst := countFuncBodies(oldSrc), countFuncBodies(newSrc)
+			accOld, accNew := 0, 0
+			for range out.TopologyMatches {
+				accOld++
+				accNew++
+			}
+			for _, f := range out.Functions {
+				switch f.Status {
+				case models.StatusAdded:
+					accNew++
+				case models.StatusRemoved:
+					accOld++
+				}
+			}
+			// the synthetic package initialiser is an entry without a source body
+			if nOldAst > 0 && accOld < nOldAst {
+				viol("C09", "C09/source-function-in-no-entry:old", fmt.Sprintf("old file has %d function bodies (go/parser), the report accounts for %d old functions", nOldAst, accOld))
+			}
+			if nNewAst > 0 && accNew < nNewAst {
+				viol("C09", "C09/source-function-in-no-entry:new", fmt.Sprintf("new file has %d function bodies (go/parser), the report accounts for %d new functions", nNewAst, accNew))
 			}
 		}
 		// ---- C09 clauses on the real report ----
